@@ -62,6 +62,12 @@ type Job struct {
 	// BFS: explore pending prefixes first-in first-out (shallow paths first)
 	BFS      bool              `json:"bfs"`
 	Concrete map[string]string `json:"concrete"` // self-test: variable values, no symbols
+	// Follow (concolic order): a seed; at every two-sided branch the side that a
+	// concrete run on inputs derived from the seed would take is explored first
+	// (the state stays symbolic). Depth-first search then dives along a
+	// realistic run, e.g. through a convergence loop, instead of along the
+	// first-listed sides.
+	Follow string `json:"follow,omitempty"`
 }
 
 type Obligation struct {
@@ -141,32 +147,35 @@ type Interp struct {
 	queries   int
 
 	// per path
-	prefix       []Decision
-	decisions    []Decision
-	pc           []*term.Term
-	pcSet        map[int]bool
-	facts        map[int][]*term.Term
-	expAtoms     []*term.Term // E(.) atoms of the current path (pairwise inverse lemma)
-	watch        map[*Value]string // watched scalar cells -> obligation label (watch.go)
-	definedLabel string            // label of definedness obligations (watch.go), "" = off
-	steps        int
-	depth        int
-	curInstr     ssa.Instruction
-	varCount     map[string]int
-	pathID       int
-	reach        []string
-	nobl         int
-	concrete     bool
-	trace        []string
-	inputs       []*term.Term
-	deadline     time.Time
-	poolThreads  int
-	poolGroups   int
-	poolJobs     []*poolJobLog
-	curJob       *poolJobLog
-	poolErf      *ssa.Function
-	marshalDepth int
-	unmarshalTop map[*Value]int
+	prefix        []Decision
+	decisions     []Decision
+	pc            []*term.Term
+	pcSet         map[int]bool
+	facts         map[int][]*term.Term
+	expAtoms      []*term.Term      // E(.) atoms of the current path (pairwise inverse lemma)
+	watch         map[*Value]string // watched scalar cells -> obligation label (watch.go)
+	definedLabel  string            // label of definedness obligations (watch.go), "" = off
+	followEnv     map[string]term.Val
+	followChecked int
+	followMemo    map[int]term.Val
+	steps         int
+	depth         int
+	curInstr      ssa.Instruction
+	varCount      map[string]int
+	pathID        int
+	reach         []string
+	nobl          int
+	concrete      bool
+	trace         []string
+	inputs        []*term.Term
+	deadline      time.Time
+	poolThreads   int
+	poolGroups    int
+	poolJobs      []*poolJobLog
+	curJob        *poolJobLog
+	poolErf       *ssa.Function
+	marshalDepth  int
+	unmarshalTop  map[*Value]int
 }
 
 // Load builds SSA for the module rooted at dir with overlay files injected.
@@ -720,6 +729,39 @@ func (in *Interp) check(label string, cond *term.Term) Obligation {
 		return ob
 	}
 	neg := term.Not(cond)
+	if in.followEnv != nil && in.job.Mode != "real" {
+		// concolic witness: the followed concrete valuation satisfies the path
+		// condition (on the path it steered) and falsifies the assertion: an
+		// exact counterexample, no query needed
+		if v, ok := term.Eval(cond, in.followEnv, in.followMemo); ok && !v.B {
+			holds := true
+			for _, t := range in.pc {
+				if pv, ok2 := term.Eval(t, in.followEnv, in.followMemo); !ok2 || !pv.B {
+					holds = false
+					break
+				}
+			}
+			if holds {
+				ob.Status, ob.Tier = "candidate", "follow-eval"
+				ob.Model = map[string]string{}
+				for _, iv := range in.inputs {
+					val, ok3 := in.followEnv[iv.Name]
+					if !ok3 {
+						continue
+					}
+					switch iv.Sort.K {
+					case term.KBool:
+						ob.Model[iv.Name] = fmt.Sprint(val.B)
+					case term.KInt:
+						ob.Model[iv.Name] = fmt.Sprint(term.UintC(iv.Sort, val.I).Int())
+					default:
+						ob.Model[iv.Name] = fmt.Sprintf("f:%x", math.Float64bits(val.F))
+					}
+				}
+				return ob
+			}
+		}
+	}
 	rel := in.relevantPC(neg)
 	ids := make([]int, 0, len(rel)+1)
 	relSet := map[int]bool{}
@@ -1171,6 +1213,11 @@ func (in *Interp) runPath(fn *ssa.Function, args []Value, prefix []Decision, id 
 	in.expAtoms = nil
 	in.watch = nil
 	in.definedLabel = ""
+	in.followEnv, in.followMemo = nil, nil
+	in.followChecked = 0
+	if in.job.Follow != "" {
+		in.followEnv, in.followMemo = map[string]term.Val{}, map[int]term.Val{}
+	}
 	in.steps = 0
 	in.depth = 0
 	in.varCount = map[string]int{}
